@@ -269,7 +269,7 @@ def build_pool() -> dict:
 
     def fin_os(d, cat):
         # objects: 1 cat 2 pages 3 p1 4 p2 5 font 6 form 7 c1 8 c2
-        return _write_objstms(d, cat, groups=[[2, 3, 5], [1, 4]], indirect_length=(7, 8))
+        return _write_objstms(d, cat, groups=[[5, 3], [1, 4]], indirect_length=(7, 8))
 
     pool["objstm"] = _two_pages(
         {"F1": fo, "F2": fdirect}, _text("F1", 12, 72, 700, b"ABC") + _text("F2", 12, 72, 650, b"ABC") + b"q 1 0 0 1 300 300 cm /Fm1 Do Q\n",
